@@ -55,6 +55,13 @@ def cases(tier, seed):
                "eps_SY": float(gen.pick(rng, [2.2e-16, 2.2e-16, 1e-3, 1e-2, 0.1])),
                "rewrite": gen.pick(rng, ["new_deque", "new_deque", "same_deque", "same_arrays"]),
                "undefined_at": int(rng.integers(0, 8)) if i % 6 == 5 else None, "fd_step": float(gen.pick(rng, [1e-3, 1e-2, 0.1])) if i % 3 == 1 else None}
+    for i in range(300 if tier == "quick" else 10000):
+        # a new term that leaves the first variable out, written into the stored gradient arrays in place (same objects, same first
+        # components, other contents), in a process that has redefined many objectives before
+        ps = gen.rand_spec(rng, ("qp", "qp_quartic"), nmax=8, nmin=3, boxes=("none", "mixed", "boxed", "lower"), starts=("interior", "face"), condmax=1e3)
+        yield {"kind": "switch", "problem": ps, "maxcor": int(rng.integers(3, 9)), "maxiter": int(rng.integers(8, 16)), "switch_at": int(rng.integers(3, 8)),
+               "variant": "indefinite_skip0", "vseed": int(rng.integers(0, 2**31 - 1)), "strength": float(rng.uniform(0.5, 3.0)),
+               "eps_SY": float(gen.pick(rng, [2.2e-16, 1e-3, 1e-2])), "rewrite": "same_arrays", "undefined_at": None, "fd_step": None}
     for i in range(100 if tier == "quick" else 4000):
         # the curvature filter applied to a rewritten history, called directly on histories of up to 45 pairs (every retained pair must
         # satisfy the condition with respect to the points actually kept around it)
@@ -117,6 +124,12 @@ def make_fB(P, spec):
     ev = rng.standard_normal(n) * spec["strength"] * float(np.exp(np.mean(np.log(eigs))) + 1.0) * 0.5
     Q = (Qm * ev) @ Qm.T
     Q = (Q + Q.T) / 2
+    if spec["variant"] == "indefinite_skip0":
+        # the new term does not involve the first variable (an intercept left out of a penalty): the first component of every gradient
+        # is what it was
+        Q[0, :] = 0.0
+        Q[:, 0] = 0.0
+        return (lambda x: P.f(x) + 0.5 * float(x @ (Q @ x))), (lambda x: P.g(x) + Q @ x), "indefinite, first variable not involved"
     return (lambda x: P.f(x) + 0.5 * float(x @ (Q @ x))), (lambda x: P.g(x) + Q @ x), "indefinite"
 
 
